@@ -675,7 +675,7 @@ def companions(c, ci):
     return [x for x in out if _well(x)]
 
 
-D1_CORE_QUICK = 10
+D1_CORE_QUICK = 8
 
 
 def enumerate_exprs(tier):
